@@ -13,3 +13,7 @@ Theorem C03_ite a b c s : beval s (bite a b c) = if beval s a then beval s b els
 Theorem C03_var v s : beval s (bvar v) = s v. Proof. exact (bvar_sem s v). Qed.
 Theorem C03_const b s : beval s (bconst b) = b. Proof. exact (bconst_sem s b). Qed.
 Print Assumptions C03_and. Print Assumptions C03_or. Print Assumptions C03_ite.
+
+(** not vacuous / sanity: a concrete instance computed by the model *)
+Example C03_instance : band (bvar 0) (bnot (bvar 2)) = Nd (Nd F 2 T) 0 F /\ bite (bvar 1) (bvar 0) (bvar 2) = Nd (Nd T 1 (Nd T 2 F)) 0 (Nd F 1 (Nd T 2 F)).
+Proof. split; vm_compute; reflexivity. Qed.
